@@ -25,12 +25,13 @@ KINDS = {
     "doc": lambda i: "/** d%d */ " % i,
     "doc-trail": lambda i: "///< t%d\n" % i,
     "line-cont": lambda i: "// k%d \\\n   cont\n" % i,
+    "line-bs-blank": lambda i: "// k%d C:\\temp\\ \n" % i,
     "tab": lambda i: "/* a\tb%d */ " % i,
     "nonascii": lambda i: "/* \xc3\xa9 \xc3\xbc%d */ " % i,
     "adjacent": lambda i: "/* x%d *//* y%d */ " % (i, i),
     "lookalike": lambda i: "/* INDENT-OFF %d */ " % i,
 }
-LINE_KINDS = {"line", "doc-trail", "line-cont", "multi-star"}
+LINE_KINDS = {"line", "doc-trail", "line-cont", "multi-star", "line-bs-blank"}
 
 
 def holes(src, lang):
@@ -183,7 +184,7 @@ def base_programs(quick):
 
 def check(ctx):
     quick = ctx.tier == "quick"
-    kinds = ["block", "glued", "line", "multi-star", "line-cont", "adjacent", "doc-trail"] if quick else list(KINDS)
+    kinds = ["block", "glued", "line", "multi-star", "line-cont", "line-bs-blank", "adjacent", "doc-trail"] if quick else list(KINDS)
     m = 4 if quick else 3
     P = configs.profiles()
     groups = []
